@@ -4,7 +4,7 @@ from common import *
 import vm_corr, vm_checks, progs
 
 PROP_MODULE = "NeverModel.Props.C15"
-REQUIRED = ["Never.C15.mark_ret_roundtrip", "Never.C15.execute_restores_sp", "Never.C15.first_execute_initialises_once", "Never.C15.compile_state_accounted", "Never.C15.globals_translated"]
+REQUIRED = ["Never.C15.mark_ret_roundtrip", "Never.C15.execute_restores_sp", "Never.C15.first_execute_initialises_once", "Never.C15.failed_execute_restores_sp", "Never.C15.compile_state_accounted", "Never.C15.globals_translated"]
 
 API_PROG = """
 var total = %d;
@@ -90,13 +90,15 @@ def check(tier, seed):
         # stack use per call
         for e in io["execs"]:
             m = re.search(r"ret=(\d+) sp_before=(-?\d+) sp_after=(-?\d+)", e)
-            if m and m.group(1) == "0" and int(m.group(2)) >= 0:
+            # every call on an initialised machine — successful or ended by an unhandled exception — must return with the
+            # stack pointer it found ("repeatable over any history": a leaked slot per call ends in 'stack too large')
+            if m and int(m.group(2)) >= 0:
                 d = int(m.group(3)) - int(m.group(2))
-                if d == 1:
+                if d == 1 and m.group(1) == "0":
                     slot_leak += 1
                 elif d != 0 and viol < 3:
                     viol += 1
-                    rep.violation("c15_sp_%d" % hi, "# a successful nev_execute changed vm.sp by %d\n# calls: %s\n%s" % (d, cs, src), True)
+                    rep.violation("c15_sp_%d" % hi, "# a nev_execute call (ret=%s) on a reused machine changed vm.sp by %d\n# calls: %s\n%s" % (m.group(1), d, cs, src), True)
         if st not in ("ok", "both-crash") and viol < 3:
             viol += 1
             crashed = io["kind"].startswith(("sanitizer", "signal", "assert", "crash"))
